@@ -478,7 +478,7 @@ func c02Configs(c *engine.Ctx) []drv.Config {
 }
 
 func c02UniverseFor(c *engine.Ctx, k drv.Kind) (*c02Universe, int) {
-	u := &c02Universe{buckets: []string{"aaa", "bbb"}, keys: []string{"k", "d/x"}, bodies: []string{"A", "BB"}}
+	u := &c02Universe{buckets: []string{"aaa", "aaa-b"}, keys: []string{"k", "d/x"}, bodies: []string{"A", "BB"}}
 	depth := 4
 	if !quick(c) {
 		depth = 0 // the 2-bucket/2-key universe is run to closure
@@ -515,7 +515,7 @@ func runC02(c *engine.Ctx) {
 		}
 		if !quick(c) && !cfg.AutoBucket {
 			// larger universe (third key sharing the directory, empty body), bounded depth
-			u3 := &c02Universe{buckets: []string{"aaa", "bbb"}, keys: []string{"k", "d/x", "d/y"}, bodies: []string{"A", "BB", ""}}
+			u3 := &c02Universe{buckets: []string{"aaa", "aaa-b"}, keys: []string{"k", "d/x", "d/y"}, bodies: []string{"A", "BB", ""}}
 			ops3 := c02BuildOps(u3)
 			name3 := "C02/" + worldName(cfg) + "/3keys"
 			engine.RunSeq(c, engine.SeqSpec{Name: name3, World: worldName(cfg), MaxDepth: 5,
